@@ -227,10 +227,10 @@ export class RangeListManager {
             // a generated key of a shared key now stands for another item than before
             updatePathTree[i] = true
           } else {
-            const subTree = (oriUpdatePathTree as { [s: string]: UpdatePathTreeNode })[i] as
-              | { [s: string]: UpdatePathTreeNode }
-              | undefined
-              | true
+            // (the tree is keyed like the data: by field name when the list is an object)
+            const subTree = (oriUpdatePathTree as { [s: string]: UpdatePathTreeNode })[
+              indexes === null ? i : indexes[i]!
+            ] as { [s: string]: UpdatePathTreeNode } | undefined | true
             if (subTree === undefined) {
               // empty
             } else if (subTree === true || (keyName === '*this' ? subTree : subTree?.[keyName])) {
@@ -242,7 +242,11 @@ export class RangeListManager {
         }
         allowFastComparison = false
       } else {
-        updatePathTree = oriUpdatePathTree
+        // the code below reads the tree by position
+        updatePathTree =
+          indexes === null
+            ? oriUpdatePathTree
+            : indexes.map((k) => (oriUpdatePathTree as { [s: string]: UpdatePathTreeNode })[k])
         allowFastComparison = false
       }
     }
